@@ -153,6 +153,7 @@ class StochasticSolver(ABC):
         main_start = time.perf_counter()
 
         n_epoch = 0  # In case range short circuits
+        epochs_done = 0
         for n_epoch in range(self._max_iters):
             for iteration in range(self._epoch_iters):
                 # Select subset for stochastic gradient
@@ -186,6 +187,7 @@ class StochasticSolver(ABC):
             # Save trace
             fest_trace[n_epoch + 1] = f_est
             step_trace[n_epoch + 1] = step
+            epochs_done = n_epoch + 1
 
             # Check convergence
             failed_epoch = f_est > f_est_prev
@@ -222,9 +224,9 @@ class StochasticSolver(ABC):
         main_time = time.perf_counter() - main_start
 
         info = {
-            "f_est_trace": fest_trace[0 : n_epoch + 1],
-            "step_trace": step_trace[0 : n_epoch + 1],
-            "time_trace": time_trace[0 : n_epoch + 1],
+            "f_est_trace": fest_trace[0 : epochs_done + 1],
+            "step_trace": step_trace[0 : epochs_done + 1],
+            "time_trace": time_trace[0 : epochs_done + 1],
             "n_epoch": n_epoch,
         }
 
